@@ -81,7 +81,7 @@ impl MarkdownEventsReader {
                             _ => {
                                 self.push_inline(
                                     DocumentInline::Str(text.to_string()),
-                                    self.to_line_range(range),
+                                    self.to_lines_touched(range),
                                 );
                                 self.pop_inline();
                             }
@@ -102,7 +102,7 @@ impl MarkdownEventsReader {
                             text: text.to_string(),
                             inline_range: self.to_inline_range(range.clone()),
                         }),
-                        self.to_line_range(range),
+                        self.to_lines_touched(range),
                     );
                     self.pop_inline();
                 }
@@ -113,7 +113,7 @@ impl MarkdownEventsReader {
                             content: cow_str.to_string(),
                             inline_range: self.to_inline_range(range.clone()),
                         }),
-                        self.to_line_range(range),
+                        self.to_lines_touched(range),
                     );
                     self.pop_inline();
                 }
@@ -122,7 +122,7 @@ impl MarkdownEventsReader {
                 InlineHtml(text) => {
                     self.push_inline(
                         DocumentInline::Str(text.to_string()),
-                        self.to_line_range(range),
+                        self.to_lines_touched(range),
                     );
                     self.pop_inline();
                 }
@@ -132,7 +132,7 @@ impl MarkdownEventsReader {
                         DocumentInline::SoftBreak(document::SoftBreak {
                             inline_range: self.to_inline_range(range.clone()),
                         }),
-                        self.to_line_range(range),
+                        self.to_lines_touched(range),
                     );
                     self.pop_inline();
                 }
@@ -141,7 +141,7 @@ impl MarkdownEventsReader {
                         DocumentInline::LineBreak(document::LineBreak {
                             inline_range: self.to_inline_range(range.clone()),
                         }),
-                        self.to_line_range(range),
+                        self.to_lines_touched(range),
                     );
                     self.pop_inline();
                 }
@@ -265,7 +265,7 @@ impl MarkdownEventsReader {
                         inlines: vec![],
                         inline_range: self.to_inline_range(range.clone()),
                     }),
-                    self.to_line_range(range),
+                    self.to_lines_touched(range),
                 );
             }
             Tag::Strong => {
@@ -274,7 +274,7 @@ impl MarkdownEventsReader {
                         inlines: vec![],
                         inline_range: self.to_inline_range(range.clone()),
                     }),
-                    self.to_line_range(range),
+                    self.to_lines_touched(range),
                 );
             }
             Tag::Strikethrough => {
@@ -283,7 +283,7 @@ impl MarkdownEventsReader {
                         inlines: vec![],
                         inline_range: self.to_inline_range(range.clone()),
                     }),
-                    self.to_line_range(range),
+                    self.to_lines_touched(range),
                 );
             }
             Tag::Link {
@@ -316,7 +316,7 @@ impl MarkdownEventsReader {
                         inline_range: self.to_inline_range(range.clone()),
                         link_type: to_link_type(link_type),
                     }),
-                    self.to_line_range(range),
+                    self.to_lines_touched(range),
                 );
             }
             Tag::Image {
@@ -332,7 +332,7 @@ impl MarkdownEventsReader {
                         attr: Default::default(),
                         inline_range: self.to_inline_range(range.clone()),
                     }),
-                    self.to_line_range(range),
+                    self.to_lines_touched(range),
                 );
             }
             Tag::MetadataBlock(_) => self.metadata_block = true,
@@ -409,6 +409,20 @@ impl MarkdownEventsReader {
             .get(from..to)
             .map(|text| text.encode_utf16().count())
             .unwrap_or(to.saturating_sub(from))
+    }
+
+    /// the lines an inline has characters on (an inline may end in the middle of a line,
+    /// which is then still one of its lines)
+    fn to_lines_touched(&self, range: Range<usize>) -> LineRange {
+        let last = range.end.saturating_sub(1).max(range.start);
+        let line_of = |offset: usize| {
+            self.line_starts
+                .iter()
+                .rposition(|&line_start| line_start <= offset)
+                .unwrap_or(0)
+        };
+
+        line_of(range.start)..line_of(last) + 1
     }
 
     fn to_line_range(&self, range: Range<usize>) -> LineRange {
